@@ -32,6 +32,52 @@ class ZeroOV:
 
 
 class DensityInterp(TermInterp):
+    # ---- object identity of the orbital arrays: `x = y` shares the array, in-place operations (`x *= ..`, `out=x`) are seen
+    # through every name of the same array
+    def _group(self, name):
+        al = self.__dict__.setdefault("alias", {})
+        rep = al.get(name, name)
+        return [n for n in set(al) | {name} if al.get(n, n) == rep]
+
+    def _join(self, a, b):
+        al = self.__dict__.setdefault("alias", {})
+        rep = al.get(b, b)
+        al[b] = rep
+        al[a] = rep
+
+    def _fresh(self, a):
+        al = self.__dict__.setdefault("alias", {})
+        if a in al:
+            # the name leaves its group; if it was the representative, re-root the rest
+            rest = [n for n in al if n != a and al[n] == al[a]]
+            for n in rest:
+                al[n] = rest[0]
+            del al[a]
+
+    def write_through(self, name, value):
+        for n in self._group(name):
+            self.env[n] = value
+
+    def stmt(self, st):
+        if isinstance(st, ast.Assign) and len(st.targets) == 1 and isinstance(st.targets[0], ast.Name):
+            tgt = st.targets[0].id
+            super().stmt(st)
+            out = [k.value.id for k in st.value.keywords if k.arg == "out" and isinstance(k.value, ast.Name)] if isinstance(st.value, ast.Call) else []
+            if isinstance(st.value, ast.Name) and isinstance(self.env.get(tgt), (OV, Table)):
+                self._fresh(tgt)
+                self._join(tgt, st.value.id)
+            elif out:
+                self._fresh(tgt)
+                self._join(tgt, out[0])
+            else:
+                self._fresh(tgt)
+            return
+        if isinstance(st, ast.AugAssign) and isinstance(st.target, ast.Name):
+            super().stmt(st)
+            self.write_through(st.target.id, self.env[st.target.id])
+            return
+        super().stmt(st)
+
     def expr(self, e):
         if isinstance(e, ast.Compare) and len(e.ops) == 1:
             l, r = self.expr(e.left), self.expr(e.comparators[0])
@@ -60,6 +106,12 @@ class DensityInterp(TermInterp):
             return ZeroOV()
         if isinstance(op, ast.Mod) and isinstance(l, int) and isinstance(r, int):
             return l % r
+        num = lambda v: isinstance(v, (int, float, sp.Rational, sp.Integer, sp.Float)) and not isinstance(v, bool)
+        if isinstance(op, (ast.Mult, ast.Div)) and isinstance(l, OV) and num(r):
+            k = sp.nsimplify(r, rational=True)
+            return OV(l.kind, l.orders, l.axes, l.coef * k if isinstance(op, ast.Mult) else l.coef / k)
+        if isinstance(op, ast.Mult) and isinstance(r, OV) and num(l):
+            return OV(r.kind, r.orders, r.axes, r.coef * sp.nsimplify(l, rational=True))
         return super().binop(op, l, r, node)
 
     def ov_mul(self, l, r, node):
@@ -189,6 +241,19 @@ def make_handler(f, ctx, symmetric=True):
             if isinstance(x, OV) and x.kind == "B" and x.axes == ("Orb", "Pts"):
                 return OV("PB", x.orders, x.axes, x.coef)
             raise Mismatch(f"one_density_matrix.dot({x}) does not contract the orbital axis", e)
+        if d in ("np.dot", "numpy.dot", "np.matmul", "numpy.matmul") and len(e.args) == 2 and ast.unparse(e.args[0]) == "one_density_matrix":
+            x = interp.expr(e.args[1])
+            if not (isinstance(x, OV) and x.kind == "B" and x.axes == ("Orb", "Pts")):
+                raise Mismatch(f"np.dot(one_density_matrix, {x}) does not contract the orbital axis", e)
+            res = OV("PB", x.orders, x.axes, x.coef)
+            for k in e.keywords:
+                if k.arg == "out":
+                    if not isinstance(k.value, ast.Name):
+                        interp.err("out= target is not a variable", e)
+                    interp.write_through(k.value.id, res)  # the buffer (under all its names) now holds the product
+                else:
+                    interp.err(f"keyword {k.arg} of np.dot", e)
+            return res
         if short == "sum" and d in ("np.sum", "numpy.sum"):
             x = interp.expr(e.args[0])
             axis = [interp.expr(k.value) for k in e.keywords if k.arg == "axis"] + [interp.expr(a) for a in e.args[1:]]
@@ -302,35 +367,52 @@ def make_handler(f, ctx, symmetric=True):
     return handler
 
 
+def threshold_parts(f):
+    """-> (X, head, tail, test, ret): X the array that is returned (clipped); head = the statements computing it; tail = the
+    statements between its last definition and the raising check; test = the `if ...: raise` against `threshold`."""
+    body = f.node.body
+    stop = [k for k, st in enumerate(body) if isinstance(st, ast.If) and st.body and isinstance(st.body[-1], ast.Raise)
+            and "threshold" in ast.unparse(st.test)]
+    if len(stop) != 1:
+        raise AnalysisError("THRESH", f"expected exactly one raising check against `threshold` in {f.name}, found {len(stop)}", f.where())
+    stop = stop[0]
+    rets = [st for st in body if isinstance(st, ast.Return)]
+    if len(rets) != 1 or body[-1] is not rets[0]:
+        raise AnalysisError("THRESH", "expected a single top-level return at the end", f.where())
+    names = sorted({n.id for n in ast.walk(rets[0].value) if isinstance(n, ast.Name)} - {"np", "numpy", "threshold"})
+    if len(names) != 1:
+        raise AnalysisError("THRESH", f"the returned expression depends on {names}: expected the one checked array", f.where(rets[0]))
+    X = names[0]
+    last = None
+    for k, st in enumerate(body[:stop]):
+        for n in ast.walk(st):
+            if isinstance(n, (ast.Assign, ast.AugAssign)):
+                tg = n.targets if isinstance(n, ast.Assign) else [n.target]
+                if any(isinstance(t, ast.Name) and t.id == X or isinstance(t, ast.Subscript) and isinstance(t.value, ast.Name) and t.value.id == X
+                       for t in tg):
+                    last = k
+    if last is None:
+        raise AnalysisError("THRESH", f"definition of the checked array `{X}` not found", f.where())
+    return X, body[: last + 1], body[last + 1: stop], body[stop], rets[0]
+
+
 def run_fn(repo, name, ctx, env_over=None, symmetric=True, until_threshold_test=False):
     f = repo.func(MOD + name)
     env = {p: p for p in f.params}
     env.update(env_over or {})
     it = DensityInterp(f, env, make_handler(f, ctx, symmetric), symmetric=symmetric)
     if until_threshold_test:
-        # the value that is checked against the threshold: interpret the statements before the raising test only
+        # the value that is checked against the threshold: interpret the statements that compute it only
         # (what happens to it afterwards is the THRESH rule's business)
-        body = f.node.body
-        stop = [k for k, st in enumerate(body) if isinstance(st, ast.If) and st.body and isinstance(st.body[-1], ast.Raise)
-                and "threshold" in ast.unparse(st.test)]
-        if len(stop) != 1:
-            raise AnalysisError("THRESH", f"raising check against `threshold` not found in {name}", f.where())
-        it.block(body[: stop[0]])
+        it.block(threshold_parts(f)[1])
     else:
         it.run()
     return f, it
 
 
 def tested_variable(f):
-    """name of the array whose minimum is compared with the threshold"""
-    for n in walk_no_nested(f.node):
-        if isinstance(n, ast.Assign) and isinstance(n.value, ast.Call):
-            v = n.value
-            if dotted(v.func) in ("np.min", "numpy.min", "np.amin", "min") and v.args and isinstance(v.args[0], ast.Name):
-                return v.args[0].id
-            if isinstance(v.func, ast.Attribute) and v.func.attr == "min" and isinstance(v.func.value, ast.Name) and not v.args:
-                return v.func.value.id
-    raise AnalysisError("THRESH", "the array whose minimum is checked was not found", f.where())
+    """name of the array that is checked against the threshold and returned"""
+    return threshold_parts(f)[0]
 
 
 def threshold_rule(repo, R, name, scale):
@@ -341,54 +423,15 @@ def threshold_rule(repo, R, name, scale):
         R.fail("THRESH", f.site, "threshold parameter", f"{name} lost its `threshold` parameter", where=f.where())
         return
     D = Defs(fn)
-    # the raising test
-    tests = [st for st in fn.body if isinstance(st, ast.If) and st.body and isinstance(st.body[-1], ast.Raise) and "threshold" in ast.unparse(st.test)]
-    if len(tests) != 1:
-        R.fail("THRESH", f.site, "negative-value check", f"expected exactly one raising check against `threshold` in {name}, found {len(tests)}",
-               where=f.where(), expected="if min < 0 and abs(min) > threshold: raise")
-        return
-    st = tests[0]
+    X, _head, tail, st, ret_st = threshold_parts(f)
     t = st.test
-    parts = t.values if isinstance(t, ast.BoolOp) and isinstance(t.op, ast.And) else [t]
     out_sym = sp.Symbol("rho", real=True)
     thr = sp.Symbol("threshold", real=True)
-    m = sp.Symbol("m", real=True)  # the minimum over the points
-
-    def val(e):
-        # expressions over min_output / threshold
-        if isinstance(e, ast.Name):
-            if e.id == "threshold":
-                return thr
-            v = D.single_assign(e.id)
-            if v is not None and isinstance(v, ast.Call) and (dotted(v.func) in ("np.min", "numpy.min", "np.amin", "min") or
-                                                              (isinstance(v.func, ast.Attribute) and v.func.attr == "min")):
-                return m
-            raise AnalysisError("THRESH", f"`{e.id}` in the threshold test is not the minimum of the output", f.where(e))
-        if isinstance(e, ast.Constant):
-            return sp.nsimplify(e.value)
-        if isinstance(e, ast.UnaryOp) and isinstance(e.op, ast.USub):
-            return -val(e.operand)
-        if isinstance(e, ast.Call) and dotted(e.func) in ("abs", "np.abs", "np.absolute", "np.fabs"):
-            return sp.Abs(val(e.args[0]))
-        if isinstance(e, ast.BinOp) and isinstance(e.op, ast.Mult):
-            return val(e.left) * val(e.right)
-        raise AnalysisError("THRESH", f"expression `{ast.unparse(e)}` in the threshold test not recognised", f.where(e))
-
-    conds = []
-    for p in parts:
-        nc = normal_compare(p)
-        if nc is None:
-            raise AnalysisError("THRESH", "threshold test is not a conjunction of comparisons", f.where(st))
-        l, op, r = nc
-        rel = {"<": sp.Lt, "<=": sp.Le, ">": sp.Gt, ">=": sp.Ge, "==": sp.Eq, "!=": sp.Ne}[op](val(l), val(r))
-        conds.append(rel)
-    got = sp.And(*conds)
-    want = sp.And(m < 0, -m > thr)
-    # compare as sets over a grid-free argument: both are conditions on (m, thr): equivalence via simplification of XOR on regions
-    equiv = _equiv(got, want, m, thr)
-    R.check(equiv, "THRESH", f.site, "raise <=> min < 0 and |min| > threshold",
-            f"the error condition `{ast.unparse(t)}` is not `negative and larger in magnitude than the threshold`",
-            where=f.where(st), expected="min < 0 and abs(min) > threshold", found=ast.unparse(t))
+    bad = orderings_counterexample(f, X, tail, t)
+    R.check(bad is None, "THRESH", f.site, "raise <=> some value is negative with magnitude > threshold",
+            f"the error condition `{ast.unparse(t)[:90]}` is not `the most negative value exceeds the threshold in magnitude`"
+            + (f": for values {bad[0]} and threshold {bad[1]} the check {'raises' if bad[2] else 'does not raise'}" if bad else ""),
+            where=f.where(st), expected="raise iff min < 0 and abs(min) > threshold", found=ast.unparse(t)[:100])
     # the min is taken of the very array that is returned, and the return is clip(min=0) of scale * that array
     E = Elem(f, {p: sp.Symbol(p) for p in f.params}, rule="THRESH")
 
@@ -397,18 +440,8 @@ def threshold_rule(repo, R, name, scale):
             return
     E.__class__ = E2
     E.lenient = True
-    rets = [s for s in fn.body if isinstance(s, ast.Return)]
-    if len(rets) != 1:
-        raise AnalysisError("THRESH", "expected a single top-level return", f.where())
-    # value expression of the returned thing in terms of the array whose min is tested
-    min_assign = [n for n in walk_no_nested(fn) if isinstance(n, ast.Assign) and isinstance(n.value, ast.Call) and
-                  (dotted(n.value.func) in ("np.min", "numpy.min", "np.amin", "min") or (isinstance(n.value.func, ast.Attribute) and n.value.func.attr == "min"))]
-    if len(min_assign) != 1:
-        raise AnalysisError("THRESH", "assignment of the minimum not found", f.where())
-    mv = min_assign[0].value
-    tested = mv.args[0] if mv.args else mv.func.value
-    if not isinstance(tested, ast.Name):
-        raise AnalysisError("THRESH", "minimum of a non-variable", f.where(mv))
+    rets = [ret_st]
+    tested = ast.Name(id=X, ctx=ast.Load())
     # statements between the test and the return that modify the tested array
     E.env[tested.id] = out_sym
     E.env["threshold"] = thr
@@ -429,16 +462,152 @@ def threshold_rule(repo, R, name, scale):
             "the threshold is modified before the comparison", where=f.where())
 
 
-def _equiv(a, b, m, thr):
-    """Equivalence of two conditions on (m, thr) by exhaustive sign/ordering cases (values touched only through comparisons)."""
-    pts = [-3, -2, -1, sp.Rational(-1, 2), 0, sp.Rational(1, 2), 1, 2, 3]
-    for mv in pts:
-        for tv in pts:
-            x = a.subs({m: mv, thr: tv})
-            y = b.subs({m: mv, thr: tv})
-            if bool(x) != bool(y):
-                return False
-    return True
+class _Unmodelled(Exception):
+    pass
+
+
+def _ord_eval(e, env, f):
+    """Concrete evaluation of the checking code over representative values (lists of Fractions = arrays)."""
+    def arr(v):
+        return isinstance(v, list)
+
+    def lift(fn, *vs):
+        if any(arr(v) for v in vs):
+            n = max(len(v) for v in vs if arr(v))
+            for v in vs:
+                if arr(v) and len(v) != n:
+                    raise _Unmodelled("shape mismatch")
+            return [fn(*[(v[k] if arr(v) else v) for v in vs]) for k in range(n)]
+        return fn(*vs)
+
+    if isinstance(e, ast.Constant):
+        if isinstance(e.value, bool) or e.value is None:
+            return e.value
+        if isinstance(e.value, (int, float)):
+            return sp.nsimplify(e.value, rational=True)
+        raise _Unmodelled(ast.unparse(e))
+    if isinstance(e, ast.Name):
+        if e.id in env:
+            return env[e.id]
+        raise _Unmodelled(f"name {e.id}")
+    if isinstance(e, ast.UnaryOp):
+        v = _ord_eval(e.operand, env, f)
+        if isinstance(e.op, ast.USub):
+            return lift(lambda a: -a, v)
+        if isinstance(e.op, (ast.Not, ast.Invert)):
+            return lift(lambda a: not a, v)
+        raise _Unmodelled(ast.unparse(e))
+    if isinstance(e, ast.BoolOp):
+        if isinstance(e.op, ast.And):
+            for x in e.values:
+                v = _ord_eval(x, env, f)
+                if arr(v):
+                    raise _Unmodelled("array in boolean context")
+                if not v:
+                    return False
+            return True
+        for x in e.values:
+            v = _ord_eval(x, env, f)
+            if arr(v):
+                raise _Unmodelled("array in boolean context")
+            if v:
+                return True
+        return False
+    if isinstance(e, ast.BinOp):
+        l, r = _ord_eval(e.left, env, f), _ord_eval(e.right, env, f)
+        ops = {ast.Add: lambda a, b: a + b, ast.Sub: lambda a, b: a - b, ast.Mult: lambda a, b: a * b,
+               ast.BitAnd: lambda a, b: bool(a) and bool(b), ast.BitOr: lambda a, b: bool(a) or bool(b)}
+        for k, fn in ops.items():
+            if isinstance(e.op, k):
+                return lift(fn, l, r)
+        raise _Unmodelled(ast.unparse(e))
+    if isinstance(e, ast.Compare) and len(e.ops) == 1:
+        l, r = _ord_eval(e.left, env, f), _ord_eval(e.comparators[0], env, f)
+        ops = {ast.Lt: lambda a, b: a < b, ast.LtE: lambda a, b: a <= b, ast.Gt: lambda a, b: a > b, ast.GtE: lambda a, b: a >= b,
+               ast.Eq: lambda a, b: a == b, ast.NotEq: lambda a, b: a != b}
+        for k, fn in ops.items():
+            if isinstance(e.ops[0], k):
+                return lift(lambda a, b: bool(fn(a, b)), l, r)
+        raise _Unmodelled(ast.unparse(e))
+    if isinstance(e, ast.Subscript):
+        base = _ord_eval(e.value, env, f)
+        idx = _ord_eval(e.slice, env, f)
+        if arr(base) and arr(idx) and len(idx) == len(base) and all(isinstance(b, bool) for b in idx):
+            return [x for x, keep in zip(base, idx) if keep]
+        raise _Unmodelled(ast.unparse(e))
+    if isinstance(e, ast.Attribute):
+        base = _ord_eval(e.value, env, f)
+        if e.attr == "size" and arr(base):
+            return sp.Integer(len(base))
+        raise _Unmodelled(ast.unparse(e))
+    if isinstance(e, ast.Call):
+        d = dotted(e.func) or ""
+        short = d.split(".")[-1]
+        if isinstance(e.func, ast.Attribute) and not d.startswith(("np.", "numpy.")):
+            args = [_ord_eval(e.func.value, env, f)] + [_ord_eval(a, env, f) for a in e.args]
+        else:
+            args = [_ord_eval(a, env, f) for a in e.args]
+        if e.keywords:
+            raise _Unmodelled(ast.unparse(e))
+        if short in ("min", "amin", "max", "amax") and len(args) == 1:
+            if not arr(args[0]):
+                return args[0]
+            if not args[0]:
+                raise _EmptyReduction()
+            return (min if short in ("min", "amin") else max)(args[0])
+        if short in ("abs", "absolute", "fabs") and len(args) == 1:
+            return lift(lambda a: abs(a), args[0])
+        if short in ("any", "all") and len(args) == 1 and arr(args[0]):
+            return (any if short == "any" else all)(bool(x) for x in args[0])
+        if short == "len" and len(args) == 1 and arr(args[0]):
+            return sp.Integer(len(args[0]))
+        if short in ("count_nonzero", "sum") and len(args) == 1 and arr(args[0]):
+            return sp.Add(*[sp.Integer(1) if x is True else sp.Integer(0) if x is False else x for x in args[0]])
+        if short in ("float", "asarray", "array", "ravel", "flatten") and len(args) == 1:
+            return args[0]
+        raise _Unmodelled(ast.unparse(e))
+    raise _Unmodelled(ast.unparse(e))
+
+
+class _EmptyReduction(Exception):
+    """np.min of an empty selection raises ValueError at run time: the call fails, which is not the documented behaviour"""
+
+
+def orderings_counterexample(f, X, tail, test):
+    """The checking code touches the values only through comparisons, abs/negation, selections and min/max: whether it raises
+    depends on the ordering of the values relative to 0 and +-threshold only.  Enumerate arrays of up to three entries over
+    representatives of every such ordering and compare with `exists x: x < 0 and -x > threshold`.  -> None or
+    (values, threshold, raised)."""
+    pts = [sp.Integer(-3), sp.Integer(-2), sp.Integer(-1), sp.Rational(-1, 2), sp.Integer(0), sp.Rational(1, 2), sp.Integer(1), sp.Integer(2), sp.Integer(3)]
+    thrs = [sp.Integer(0), sp.Rational(1, 2), sp.Integer(1), sp.Integer(2)]
+    import itertools
+    for n in (1, 2, 3):
+        for vals in itertools.product(pts, repeat=n):
+            if list(vals) != sorted(vals) and n == 3:
+                # order of the entries: permutations of a 3-array are covered by the 2-arrays' both orders plus sorted triples
+                continue
+            for tv in thrs:
+                env = {X: list(vals), "threshold": tv}
+                try:
+                    for st in tail:
+                        if isinstance(st, ast.Assign) and len(st.targets) == 1 and isinstance(st.targets[0], ast.Name):
+                            env[st.targets[0].id] = _ord_eval(st.value, env, f)
+                        elif isinstance(st, ast.Expr) and isinstance(st.value, ast.Constant):
+                            continue
+                        else:
+                            raise _Unmodelled(ast.unparse(st)[:60])
+                    got = _ord_eval(test, env, f)
+                    if isinstance(got, list):
+                        raise _Unmodelled("array-valued condition")
+                    got = bool(got)
+                except _EmptyReduction:
+                    got = True  # the check itself fails with an exception for these values
+                except _Unmodelled as ex:
+                    raise AnalysisError("THRESH", f"the negative-value check uses a construct outside the comparison fragment: {ex}", f.where(test))
+                want = any(v < 0 and -v > tv for v in vals)
+                if got != want:
+                    return [str(v) for v in vals], str(tv), got
+    return None
 
 
 def run(repo, R):
